@@ -214,5 +214,6 @@ let job_frag (job : Sx.t) : string =
       Printf.sprintf " (canon %d %d)" n (Stdlib.List.length all) in
   (* the premises of the end-to-end theorem (Compile/EndToEnd.v): certified, and the gate bound for both dedup settings *)
   let e2e = EndToEnd.certified lfuel p && EndToEnd.within_gate_bound lfuel true p && EndToEnd.within_gate_bound lfuel false p in
-  Printf.sprintf "(imp %d) (kfree %s) (safe %d) (cov %d) (total %d) (wtcov %d) (e2e %d)%s" (if imp then 1 else 0) k (if safe then 1 else 0)
-    (if cov then 1 else 0) (if total then 1 else 0) (if wtcov then 1 else 0) (if e2e then 1 else 0) canon
+  let exh = ExhSem.exh_fns p in
+  Printf.sprintf "(imp %d) (kfree %s) (safe %d) (cov %d) (total %d) (wtcov %d) (e2e %d) (exh %d)%s" (if imp then 1 else 0) k (if safe then 1 else 0)
+    (if cov then 1 else 0) (if total then 1 else 0) (if wtcov then 1 else 0) (if e2e then 1 else 0) (if exh then 1 else 0) canon
